@@ -199,6 +199,10 @@ def canon_atom(resolver: Resolver, atom: ast.AST, pol: bool) -> Tuple[str, bool]
 
 
 # --------------------------------------------------------------------------- the flow engine
+MUTATORS = {"remove", "append", "pop", "clear", "add", "update", "extend", "insert", "discard", "sort", "reverse",
+            "popitem", "setdefault", "appendleft", "popleft"}
+
+
 class Out:
     __slots__ = ("normal", "brk", "cont", "ret", "exc")
 
@@ -321,6 +325,11 @@ class Flow:
             targets = [stmt.target]
         elif isinstance(stmt, ast.Delete):
             targets = stmt.targets
+        elif isinstance(stmt, ast.Expr) and isinstance(stmt.value, ast.Call) and isinstance(stmt.value.func, ast.Attribute) \
+                and stmt.value.func.attr in MUTATORS:
+            l = loc_text(self.resolver.resolve(stmt.value.func.value))
+            if l:
+                st = self._kill_loc(st, l)
         elif isinstance(stmt, (ast.Import, ast.ImportFrom)):
             for al in stmt.names:
                 st = self._kill_loc(st, (al.asname or al.name).split(".")[0])
